@@ -10,7 +10,7 @@
 (* return normally poisons its scenario (nothing after it is judged until  *)
 (* the next Reset).                                                        *)
 (***************************************************************************)
-EXTENDS AidlStore, AidlSymbols, AidlLayout, Json, IOUtils
+EXTENDS AidlStore, AidlSymbols, AidlLex, Json, IOUtils
 
 \* the trace is read once (at startup) into a TLC register; Rec is then a constant-time lookup
 ASSUME TLCSet(42, ndJsonDeserialize(IOEnv.TRACE))
@@ -111,9 +111,8 @@ C20ok(o, expected) ==
   LET S == SyntaxIx(o.diags)
   IN Len(S) = Len(expected) /\ \A k \in DOMAIN S : ExpectedNamed(o.diags[S[k]], expected[k])
 
-JudgeParsed(e) ==
-  LET d == e.pieces
-      o == e.pobs
+JudgeDoc(e, d) ==
+  LET o == e.pobs
       tk == Tokens(d)
       pr == ParseToks(tk)
       tab == Tab(d)
@@ -189,7 +188,27 @@ JudgeRecovery(e) ==
           /\ J("C14", e, "a syntax Error lies outside the malformed member",
                \A k \in DOMAIN S : Inside(o.diags[S[k]].r))
 
+JudgeParsed(e) == JudgeDoc(e, e.pieces)
+
+\* a document given as raw characters (atoms): the specification lexes it first (AidlLex)
+JudgeLexed(e) ==
+  LET at == e.atoms
+      lx == Lex(at)
+      o == e.pobs
+  IN IF lx.err = 0 THEN JudgeDoc(e, lx.pieces)
+     ELSE LET whole == <<<<"WS", "", at>>>>
+              ps == PosSet(whole, Tab(whole))
+              off == BytesBefore(at, lx.err)
+          IN /\ J("C03", e, "unlexable document reported free of syntax errors", ~(o.has_tree /\ o.diags = <<>>))
+             /\ J("C03", e, "unlexable document without an Error", \E k \in DOMAIN o.diags : o.diags[k].sev = "E")
+             /\ J("C03", e, "keyword or reserved word stored as a name", NamesAreIdents(o))
+             /\ J("C04", e, "range not well-formed (offset / char boundary / line-column)", AllRangesWF(o.nodes, o.diags, ps))
+             /\ J("C04", e, "no empty-range Error at the unlexable character",
+                  \E k \in DOMAIN o.diags : o.diags[k].sev = "E" /\ o.diags[k].r[1] = off /\ o.diags[k].r[2] = off)
+             /\ J("C20", e, "syntax-error message vs. the parser's expectation set", C20ok(o, e.expected))
+
 TAdd(e) ==
+  /\ (IF Fld(e, "atoms") /\ Fld(e, "pobs") THEN JudgeLexed(e) ELSE TRUE) = TRUE
   /\ (IF Fld(e, "garbage") /\ Fld(e, "pieces") /\ Fld(e, "pobs") THEN JudgeRecovery(e) ELSE TRUE) = TRUE
   \* (compared with TRUE so that TLC evaluates the judgement as an expression, where LET definitions are cached)
   /\ (IF Fld(e, "pieces") /\ Fld(e, "pobs") THEN JudgeParsed(e) ELSE TRUE) = TRUE
@@ -253,6 +272,9 @@ TValidate(e) ==
   /\ memo13' = NextMemo13(e)
   /\ UNCHANGED poison
 
+\* kk (sequence of <<id, key, kind>>) as key -> set of kinds
+KeysOfKK(kk) == [q \in {kk[j][2] : j \in DOMAIN kk} |-> {kk[j][3] : j \in {x \in DOMAIN kk : kk[x][2] = q}}]
+
 \* read-only queries: they never change the store, and their answers are judged with AidlSymbols
 JudgeQuery(e) ==
   IF e.out # "ok" \/ ~Fld(e, "nodes") THEN TRUE
@@ -260,7 +282,7 @@ JudgeQuery(e) ==
   CASE e.ev = "walk" ->
          /\ J("C15", e, "walk_symbols order / coverage",
               [k \in DOMAIN e.syms |-> e.syms[k].p] = Walk(ns, e.filter) /\ WalkCoversTree(ns))
-         /\ J("C17", e, "name / qualified name of a symbol", NamesOK(ns, e.syms))
+         /\ J("C17", e, "name / qualified name of a symbol", NamesOK(ns, e.syms, KeysOfKK(e.kk)))
          /\ J("X-strings", e, "signature / details string (extension)", StringsOK(ns, e.syms))
     [] e.ev = "filter" -> J("C15", e, "filter_symbols result", e.paths = FilterPaths(ns, e.filter, e.pred))
     [] e.ev = "find" -> J("C15", e, "find_symbol result", e.found = FindPath(ns, e.filter, e.pred))
